@@ -117,6 +117,9 @@ def parseCfg (s : String) : Option (Option Config) :=
       match jsonLoads t with
       | some (.list xs) => do pure (some (.path (← xs.mapM segOfDict)))
       | _ => none
+    | ["G", h] => do
+      let t ← if h = "~" then some none else (bytesOfHex h).map some
+      pure (fileConfig t)
     | ["M", h, simple] => do
       let t ← if h = "~" then some none else (bytesOfHex h).map some
       pure (mainConfig t (simple == "1"))
@@ -153,6 +156,7 @@ def parseOp (s : String) : Option Op :=
   | ["g", a] => do pure (.gas (← a.toNat?))
   | ["s", a, vs] => do pure (.sas (← a.toNat?) (← natList vs))
   | ["a"] => some .gaa
+  | ["f"] => some .fwdOpen
   | ["u"] => some (.unknown false)
   | ["uf"] => some (.unknown true)
   | _ => none
